@@ -1,0 +1,243 @@
+//go:build verif
+
+// Contracts for package packet, checked by /verif/govc (contract-based deductive verification).
+// This file contains comments only; it is compiled only under the build tag "verif".
+
+package packet
+
+//@ func CRC16(data []byte) (res uint16)
+//@   safety[C03,C10]
+//@   modifies[C03] nothing
+//@   ensures[C03] res == crc16(data, len(data))
+//@   loop 0
+//@     invariant -1 <= rangeindex && rangeindex < len(data)
+//@     invariant crc == crc16(data, rangeindex+1)
+//@   loop 1
+//@     ghost c0 := crc
+//@     invariant 0 <= i && i <= 8 && crc == crcbits(c0, i)
+
+//@ func CoilsToBytes(coils []bool) (res []byte)
+//@   safety[C01,C11]
+//@   modifies[C01] nothing
+//@   ensures[C01,C11] len(res) == (len(coils)+7)/8
+//@   ensures[C01,C11] forall k in 0..len(coils) :: ((res[k/8] >> uint(k%8)) & 1 == 1) == coils[k]
+//@   ensures[C01,C11] forall k in len(coils)..8*len(res) :: (res[k/8] >> uint(k%8)) & 1 == 0
+//@   loop 0
+//@     modifies result
+//@     invariant 0 <= i && i <= cLen && cLen == len(coils) && len(result) == (len(coils)+7)/8
+//@     invariant forall k in 0..i :: ((result[k/8] >> uint(k%8)) & 1 == 1) == coils[k]
+//@     invariant forall k in i..8*len(result) :: (result[k/8] >> uint(k%8)) & 1 == 0
+
+// ---------------------------------------------------------------------------------------------
+// registers.go (C04 typed access, C13 no side effects, C10 safety)
+
+//@ func NewRegisters(data []byte, startAddress uint16) (res *Registers, err error)
+//@   safety[C04,C10]
+//@   modifies[C13] nothing
+//@   alias res.data := data if err == nil
+//@   ensures[C04] (len(data) >= 2 && len(data)%2 == 0) <==> err == nil
+//@   ensures[C04] err != nil <==> res == nil
+//@   ensures[C04,C05] err == nil ==> res.startAddress == startAddress && res.defaultByteOrder == BigEndianHighWordFirst && len(res.data) == len(data)
+//@   ensures[C04,C05] err == nil && len(data) <= 250 && int(startAddress) + len(data)/2 <= 65536 ==> validRegs(res)
+
+//@ func (r Registers) register(address uint16) (b []byte, err error)
+//@   requires validRegs(r)
+//@   safety[C04,C10]
+//@   noOverread[C04]
+//@   modifies[C13] nothing
+//@   alias b := r.data[regOff(r,address) : regOff(r,address)+2] if err == nil
+//@   ensures[C04] inWindow(r, address, 1) <==> err == nil
+//@   ensures[C04] err != nil ==> isnil(b)
+
+//@ func (r Registers) doubleRegister(address uint16, byteOrder ByteOrder) (b []byte, err error)
+//@   requires validRegs(r)
+//@   safety[C04,C10]
+//@   noOverread[C04]
+//@   modifies[C13] nothing
+//@   alias b := r.data[regOff(r,address) : regOff(r,address)+4] if err == nil && byteOrder&LowWordFirst == 0
+//@   ensures[C04] inWindow(r, address, 2) <==> err == nil
+//@   ensures[C04] err == nil ==> len(b) == 4 && forall k in 0..4 :: b[k] == r.data[regOff(r,address) + perm2(byteOrder, k)]
+//@   ensures[C04] err != nil ==> isnil(b)
+
+//@ func (r Registers) quadRegister(address uint16, byteOrder ByteOrder) (b []byte, err error)
+//@   requires validRegs(r)
+//@   safety[C04,C10]
+//@   noOverread[C04]
+//@   modifies[C13] nothing
+//@   alias b := r.data[regOff(r,address) : regOff(r,address)+8] if err == nil && byteOrder&LowWordFirst == 0
+//@   ensures[C04] inWindow(r, address, 4) <==> err == nil
+//@   ensures[C04] err == nil ==> len(b) == 8 && forall k in 0..8 :: b[k] == r.data[regOff(r,address) + perm4(byteOrder, k)]
+//@   ensures[C04] err != nil ==> isnil(b)
+//@ func (r Registers) Register(address uint16) (res []byte, err error)
+//@   requires validRegs(r)
+//@   safety[C04,C10]
+//@   noOverread[C04]
+//@   modifies[C13] nothing
+//@   fresh[C13] res
+//@   ensures[C04] inWindow(r, address, 1) <==> err == nil
+//@   ensures[C04] err == nil ==> len(res) == 2 && res[0] == r.data[regOff(r,address)] && res[1] == r.data[regOff(r,address)+1]
+//@   ensures[C04,C10] err != nil ==> isnil(res)
+
+//@ func (r Registers) DoubleRegister(address uint16, byteOrder ByteOrder) (res []byte, err error)
+//@   requires validRegs(r)
+//@   safety[C04,C10]
+//@   noOverread[C04]
+//@   modifies[C13] nothing
+//@   fresh[C13] res
+//@   ensures[C04] inWindow(r, address, 2) <==> err == nil
+//@   ensures[C04] err == nil ==> len(res) == 4 && forall k in 0..4 :: res[k] == r.data[regOff(r,address) + perm2(byteOrder, k)]
+//@   ensures[C04,C10] err != nil ==> isnil(res)
+
+//@ func (r Registers) QuadRegister(address uint16, byteOrder ByteOrder) (res []byte, err error)
+//@   requires validRegs(r)
+//@   safety[C04,C10]
+//@   noOverread[C04]
+//@   modifies[C13] nothing
+//@   fresh[C13] res
+//@   ensures[C04] inWindow(r, address, 4) <==> err == nil
+//@   ensures[C04] err == nil ==> len(res) == 8 && forall k in 0..8 :: res[k] == r.data[regOff(r,address) + perm4(byteOrder, k)]
+//@   ensures[C04,C10] err != nil ==> isnil(res)
+
+//@ func (r Registers) Bit(address uint16, bit uint8) (v bool, err error)
+//@   requires validRegs(r)
+//@   safety[C04,C10]
+//@   noOverread[C04]
+//@   modifies[C13] nothing
+//@   ensures[C04] (bit <= 15 && inWindow(r, address, 1)) <==> err == nil
+//@   ensures[C04] err == nil ==> v == ((u16of(r.data[regOff(r,address)], r.data[regOff(r,address)+1]) >> bit) & 1 == 1)
+
+//@ func (r Registers) Byte(address uint16, fromHighByte bool) (v byte, err error)
+//@   requires validRegs(r)
+//@   safety[C04,C10]
+//@   noOverread[C04]
+//@   modifies[C13] nothing
+//@   ensures[C04] inWindow(r, address, 1) <==> err == nil
+//@   ensures[C04] err == nil ==> v == ite(fromHighByte, r.data[regOff(r,address)], r.data[regOff(r,address)+1])
+
+//@ func (r Registers) Uint8(address uint16, fromHighByte bool) (v uint8, err error)
+//@   requires validRegs(r)
+//@   safety[C04,C10]
+//@   noOverread[C04]
+//@   modifies[C13] nothing
+//@   ensures[C04] inWindow(r, address, 1) <==> err == nil
+//@   ensures[C04] err == nil ==> v == ite(fromHighByte, r.data[regOff(r,address)], r.data[regOff(r,address)+1])
+
+//@ func (r Registers) Int8(address uint16, fromHighByte bool) (v int8, err error)
+//@   requires validRegs(r)
+//@   safety[C04,C10]
+//@   noOverread[C04]
+//@   modifies[C13] nothing
+//@   ensures[C04] inWindow(r, address, 1) <==> err == nil
+//@   ensures[C04] err == nil ==> v == int8(ite(fromHighByte, r.data[regOff(r,address)], r.data[regOff(r,address)+1]))
+
+//@ func (r Registers) Uint16(address uint16) (v uint16, err error)
+//@   requires validRegs(r)
+//@   safety[C04,C10]
+//@   noOverread[C04]
+//@   modifies[C13] nothing
+//@   ensures[C04] inWindow(r, address, 1) <==> err == nil
+//@   ensures[C04] err == nil ==> v == dec16(r.data, regOff(r,address), r.defaultByteOrder)
+
+//@ func (r Registers) Int16(address uint16) (v int16, err error)
+//@   requires validRegs(r)
+//@   safety[C04,C10]
+//@   noOverread[C04]
+//@   modifies[C13] nothing
+//@   ensures[C04] inWindow(r, address, 1) <==> err == nil
+//@   ensures[C04] err == nil ==> v == int16(dec16(r.data, regOff(r,address), r.defaultByteOrder))
+
+//@ func (r Registers) Uint32(address uint16) (v uint32, err error)
+//@   requires validRegs(r)
+//@   safety[C04,C10]
+//@   noOverread[C04]
+//@   modifies[C13] nothing
+//@   ensures[C04] inWindow(r, address, 2) <==> err == nil
+//@   ensures[C04] err == nil ==> v == dec32(r.data, regOff(r,address), r.defaultByteOrder)
+
+//@ func (r Registers) Uint32WithByteOrder(address uint16, byteOrder ByteOrder) (v uint32, err error)
+//@   requires validRegs(r)
+//@   safety[C04,C10]
+//@   noOverread[C04]
+//@   modifies[C13] nothing
+//@   ensures[C04] inWindow(r, address, 2) <==> err == nil
+//@   ensures[C04] err == nil ==> v == dec32(r.data, regOff(r,address), effOrder(r, byteOrder))
+
+//@ func (r Registers) Int32(address uint16) (v int32, err error)
+//@   requires validRegs(r)
+//@   safety[C04,C10]
+//@   noOverread[C04]
+//@   modifies[C13] nothing
+//@   ensures[C04] inWindow(r, address, 2) <==> err == nil
+//@   ensures[C04] err == nil ==> v == int32(dec32(r.data, regOff(r,address), r.defaultByteOrder))
+
+//@ func (r Registers) Int32WithByteOrder(address uint16, byteOrder ByteOrder) (v int32, err error)
+//@   requires validRegs(r)
+//@   safety[C04,C10]
+//@   noOverread[C04]
+//@   modifies[C13] nothing
+//@   ensures[C04] inWindow(r, address, 2) <==> err == nil
+//@   ensures[C04] err == nil ==> v == int32(dec32(r.data, regOff(r,address), effOrder(r, byteOrder)))
+
+//@ func (r Registers) Float32(address uint16) (v float32, err error)
+//@   requires validRegs(r)
+//@   safety[C04,C10]
+//@   noOverread[C04]
+//@   modifies[C13] nothing
+//@   ensures[C04] inWindow(r, address, 2) <==> err == nil
+//@   ensures[C04] err == nil ==> float32bits(v) == dec32(r.data, regOff(r,address), r.defaultByteOrder)
+
+//@ func (r Registers) Float32WithByteOrder(address uint16, byteOrder ByteOrder) (v float32, err error)
+//@   requires validRegs(r)
+//@   safety[C04,C10]
+//@   noOverread[C04]
+//@   modifies[C13] nothing
+//@   ensures[C04] inWindow(r, address, 2) <==> err == nil
+//@   ensures[C04] err == nil ==> float32bits(v) == dec32(r.data, regOff(r,address), effOrder(r, byteOrder))
+
+//@ func (r Registers) Uint64(address uint16) (v uint64, err error)
+//@   requires validRegs(r)
+//@   safety[C04,C10]
+//@   noOverread[C04]
+//@   modifies[C13] nothing
+//@   ensures[C04] inWindow(r, address, 4) <==> err == nil
+//@   ensures[C04] err == nil ==> v == dec64(r.data, regOff(r,address), r.defaultByteOrder)
+
+//@ func (r Registers) Uint64WithByteOrder(address uint16, byteOrder ByteOrder) (v uint64, err error)
+//@   requires validRegs(r)
+//@   safety[C04,C10]
+//@   noOverread[C04]
+//@   modifies[C13] nothing
+//@   ensures[C04] inWindow(r, address, 4) <==> err == nil
+//@   ensures[C04] err == nil ==> v == dec64(r.data, regOff(r,address), effOrder(r, byteOrder))
+
+//@ func (r Registers) Int64(address uint16) (v int64, err error)
+//@   requires validRegs(r)
+//@   safety[C04,C10]
+//@   noOverread[C04]
+//@   modifies[C13] nothing
+//@   ensures[C04] inWindow(r, address, 4) <==> err == nil
+//@   ensures[C04] err == nil ==> v == int64(dec64(r.data, regOff(r,address), r.defaultByteOrder))
+
+//@ func (r Registers) Int64WithByteOrder(address uint16, byteOrder ByteOrder) (v int64, err error)
+//@   requires validRegs(r)
+//@   safety[C04,C10]
+//@   noOverread[C04]
+//@   modifies[C13] nothing
+//@   ensures[C04] inWindow(r, address, 4) <==> err == nil
+//@   ensures[C04] err == nil ==> v == int64(dec64(r.data, regOff(r,address), effOrder(r, byteOrder)))
+
+//@ func (r Registers) Float64(address uint16) (v float64, err error)
+//@   requires validRegs(r)
+//@   safety[C04,C10]
+//@   noOverread[C04]
+//@   modifies[C13] nothing
+//@   ensures[C04] inWindow(r, address, 4) <==> err == nil
+//@   ensures[C04] err == nil ==> float64bits(v) == dec64(r.data, regOff(r,address), r.defaultByteOrder)
+
+//@ func (r Registers) Float64WithByteOrder(address uint16, byteOrder ByteOrder) (v float64, err error)
+//@   requires validRegs(r)
+//@   safety[C04,C10]
+//@   noOverread[C04]
+//@   modifies[C13] nothing
+//@   ensures[C04] inWindow(r, address, 4) <==> err == nil
+//@   ensures[C04] err == nil ==> float64bits(v) == dec64(r.data, regOff(r,address), effOrder(r, byteOrder))
